@@ -39,7 +39,13 @@ Definition tie_nifti_r : bool :=
                     | (_, None) => true end) gen_nifti_r_payload_samples.
 Definition tie_nifti_w : bool :=
   forallb (fun e => match e with
-                    | ((D, C, size), Some (shape, perm)) => nat_list_eqb perm (coded C (nprod size)) && nat_list_eqb shape (size ++ [C])
+                    | ((D, C, size), Some (L, shape, perm)) =>
+                        nat_list_eqb perm (coded C (nprod size)) &&
+                        nat_list_eqb shape (match L with
+                                            | LScalar => size
+                                            | LOwn => size ++ [C]
+                                            | LItkVector => size ++ repeat 1%nat (4 - D) ++ [C]
+                                            end)
                     | (_, None) => true end) gen_nifti_w_payload_samples.
 
 Definition count_some {X Y} (l : list (X * option Y)) : nat :=
